@@ -574,6 +574,14 @@ def extreme_params(run, binary):
     scs = vlib.generate(run, "Gen_Agg", gen_cfg(run.tier, run.seed, 1, ["EmitAgg"]), "agg", fam="C13", cap=(2500 if quick else 40000), timeout=1500)
     scs += vlib.generate(run, "Gen_WF", gen_cfg(run.tier, run.seed, 1, ["EmitWF"]), "wf", fam="C13")
     traces = vlib.replay(run, binary, "query", scs, "xp", chunks=max(1, min(vlib.NCPU // 2, len(scs) // 400)))
+    # unusual windows through the API: steps below a millisecond (500 us, 1 ns, 1.5 ms), start after end
+    aw = []
+    for i, s0 in enumerate([s for s in scs if s.get("step", 0) > 0][:(60 if quick else 600)]):
+        for j, v in enumerate(({"stepns": 500000}, {"stepns": 1}, {"stepns": 1500000}, {"swap": 1})):
+            s1 = dict(s0, id="%s-aw%d" % (s0["id"], j))
+            s1["cfg"] = dict(s0.get("cfg") or {}, **v)
+            aw.append(s1)
+    traces += vlib.replay(run, binary, "apiwin", aw, "aw", chunks=1, stall=30)
     viols, stats = vlib.validate(run, "QueryTrace", traces, "xp")
     hdr = headers_of(traces, {v[0] for v in viols})
 
